@@ -17,7 +17,7 @@
 (* more than AlignMax digits.  The library is checked against its own      *)
 (* algebra by DecimalLaws before it is trusted.                            *)
 (***************************************************************************)
-EXTENDS Integers, Sequences, FiniteSets, TLC
+EXTENDS Integers, Sequences, FiniteSets, TLC, Outcome
 
 Prec == 34
 EMax == 6144          \* largest adjusted exponent of decimal128
@@ -118,8 +118,6 @@ ExactAdd(x, y) ==
 ExactMul(x, y) == IF IsZero(x) \/ IsZero(y) THEN DZero ELSE Norm(x.neg # y.neg, NMul(x.ds, y.ds), x.e + y.e)
 
 \* ---- rounding to the admissible set ---------------------------------------
-Err(c) == [t |-> "err", cs |-> {c}]
-Open == [t |-> "any"]
 NumV(x) == [t |-> "num", neg |-> x.neg, ds |-> x.ds, e |-> x.e]
 
 \* Beyond 34 digits the property admits every value within one unit of the
@@ -173,7 +171,7 @@ FloorD(x) ==      \* largest integer <= x
             IF x.neg THEN Norm(TRUE, NAdd(ip, <<1>>), 0) ELSE Norm(FALSE, ip, 0)
 CeilD(x) == Negate(FloorD(Negate(x)))
 
-Arith(op, x, y) ==
+DArith(op, x, y) ==
   CASE op = "+" -> IF ~IsZero(x) /\ ~IsZero(y) /\ Gap(x, y) > AlignMax THEN {Open} ELSE Round(ExactAdd(x, y))
     [] op = "-" -> IF ~IsZero(x) /\ ~IsZero(y) /\ Gap(x, y) > AlignMax THEN {Open} ELSE Round(ExactAdd(x, Negate(y)))
     [] op = "*" -> Round(ExactMul(x, y))
